@@ -12,6 +12,7 @@ MinCid == CHOOSE c \in Cids : \A c2 \in Cids : c <= c2
 GDet(d) == d.cid = MinCid
 VDL == {<<>>} \cup {<<d>> : d \in {x \in VDet : GDet(x)}}
        \cup (IF MaxDets >= 2 THEN {<<d1, d2>> : d1 \in {x \in VDet : GDet(x)}, d2 \in {x \in VDet : GDet(x)}} ELSE {})
+       \cup (IF MaxDets >= 3 THEN {<<d1, d2, d3>> : d1 \in {x \in VDet : GDet(x)}, d2 \in {x \in VDet : GDet(x)}, d3 \in {x \in VDet : GDet(x)}} ELSE {})
 Ops == (IF Kind = "simple" THEN {[op |-> "predict", scene |-> s, dets |-> d] : s \in Scenes, d \in VDL}
         ELSE {[op |-> "batch", b |-> [i \in 1..Len(AscSeq(S)) |-> [scene |-> AscSeq(S)[i], dets |-> f[AscSeq(S)[i]]]]] :
                  S \in SUBSET Scenes, f \in [Scenes -> VDL \ {<<>>}]})
